@@ -323,6 +323,67 @@ void enum_reaches_end(unsigned const nwords)
   verif_reach("enum-end-value-drawn");
 }
 
+// ---- enums whose underlying values are NOT 0-based (negative enumerators): uniform_int<Enum> goes through
+// fcppt::type_iso::transform<Enum> (type_iso/enum.hpp).  The wrapped distribution must be std::uniform_int_distribution over the
+// underlying type holding exactly (underlying(min), underlying(max)); draws = std::uniform_int_distribution<U>(lo, hi) re-wrapped.
+enum class direction : int { left = -1, none, right };
+enum class level16 : short { lowest = -2, low, mid, high, highest };
+enum class tiny8 : signed char { m3 = -3, m2, m1, zero, p1 };
+enum class far64 : long { a = -1000000000000L, b, c };
+
+// symbolic_sub: the interval is a solver-chosen sub-interval [a,b] of [Lo,Hi] (32-bit generator only, see grid())
+template <typename E, E Lo, E Hi, typename G>
+void signed_enum(bool const symbolic_sub, unsigned const nwords)
+{
+  using U = std::underlying_type_t<E>;
+  U a{static_cast<U>(Lo)}, b{static_cast<U>(Hi)};
+  if (symbolic_sub)
+  {
+    a = static_cast<U>(verif_u64("a"));
+    b = static_cast<U>(verif_u64("b"));
+    verif_assume(static_cast<U>(Lo) <= a && a <= b && b <= static_cast<U>(Hi));
+  }
+  using params = params_ns::uniform_int<E>;
+  using dist = fcppt::random::distribution::basic<params>;
+  static_assert(std::is_same_v<typename dist::wrapped_distribution, std::uniform_int_distribution<U>>, "the wrapped distribution is over the underlying type");
+  static_assert(std::is_same_v<typename dist::result_type, E>);
+  params const p{typename params::min{static_cast<E>(a)}, typename params::max{static_cast<E>(b)}};
+  dist const d0{p};
+  verif_assert(d0.distribution().a() == a && d0.distribution().b() == b, "uniform_int<Enum>: the wrapped distribution holds exactly (underlying(min), underlying(max))");
+  verif_assert(d0.min() == static_cast<E>(a) && d0.max() == static_cast<E>(b), "uniform_int<Enum>: basic::min()/max() are the given enumerators");
+  word_source const ws{fresh_words<G>(nwords)};
+  G g1{&ws, 0}, g2{&ws, 0}, g3{&ws, 0};
+  fcppt::random::variate<G, dist> v{fcppt::make_ref(g1), p};
+  std::uniform_int_distribution<U> ref{a, b};
+  for (unsigned k = 0; k < 2; ++k)
+  {
+    U const y{ref(g2)};
+    E const x{v()};
+    verif_out("x", static_cast<std::uint64_t>(static_cast<std::int64_t>(static_cast<U>(x))));
+    verif_assert(static_cast<U>(x) == y, "enum variate (negative enumerators) draws the enumerator whose value the std distribution draws");
+    verif_assert(g1.calls == g2.calls, "enum variate (negative enumerators) consumes exactly as many words");
+    verif_assert(a <= static_cast<U>(x) && static_cast<U>(x) <= b, "the drawn enumerator lies in [min, max]");
+  }
+  dist d1{p};
+  U const y0{std::uniform_int_distribution<U>{a, b}(g3)};
+  G g4{&ws, 0};
+  verif_assert(static_cast<U>(d1(g4)) == y0, "basic<uniform_int<Enum>>::operator()(rng) draws what the std distribution draws");
+  verif_reach("signed-enum-end");
+}
+
+template <typename E, E Lo, E Hi, typename G>
+void signed_enum_reaches_end(unsigned const nwords)
+{
+  bool const upper{verif_param("end") != 0};
+  word_source const ws{fresh_words<G>(nwords)};
+  G g{&ws, 0};
+  using params = params_ns::uniform_int<E>;
+  fcppt::random::variate<G, fcppt::random::distribution::basic<params>> v{fcppt::make_ref(g), params{typename params::min{Lo}, typename params::max{Hi}}};
+  E const x{v()};
+  verif_assume(x == (upper ? Hi : Lo));
+  verif_reach("signed-enum-end-value-drawn");
+}
+
 // ---- indices / containers
 template <typename G>
 void container(unsigned const nwords)
@@ -480,6 +541,17 @@ EN(1, u32, word32) EN(2, u32, word32) EN(3, i32, word32) EN(9, u32, word32) EN(9
 //@harness h_enum_3_u32_minstd tier=quick loop=24
 //@harness h_enum_9_u64_word64 tier=quick loop=24
 //@harness h_enumend_{X} for X in 1_u32_word32,2_u32_word32,3_i32_word32,9_u32_word32,9_i32_minstd,3_u32_minstd,9_u64_word64,5_u16e_word32 param end=0..1 tier=quick loop=24
+
+// enums with negative enumerators (S = 1: solver-chosen sub-interval of the enumerators, S = 0: the whole enum)
+#define SE(NAME, E, LO, HI, G, NW) H(h_senum_##NAME##_##G, signed_enum<E, E::LO, E::HI, G>(false, NW)) H(h_senumsub_##NAME##_##G, signed_enum<E, E::LO, E::HI, G>(true, NW)) \
+  H(h_senumend_##NAME##_##G, signed_enum_reaches_end<E, E::LO, E::HI, G>(1))
+SE(direction, direction, left, right, word32, 3) SE(direction, direction, left, right, minstd, 3) SE(direction, direction, left, right, word64, 3)
+SE(level16, level16, lowest, highest, word32, 3) SE(level16, level16, lowest, highest, minstd, 3)
+SE(tiny8, tiny8, m3, p1, word32, 3) SE(far64, far64, a, c, word64, 3) SE(far64, far64, a, c, word32, 3)
+//@harness h_senum_{X} for X in direction_word32,direction_minstd,direction_word64,level16_word32,level16_minstd,tiny8_word32,far64_word64,far64_word32 tier=quick loop=24
+//@harness h_senumsub_{X} for X in direction_word32,level16_word32,tiny8_word32 tier=quick loop=24
+//@harness h_senumsub_far64_word64 tier=thorough loop=24 wall=900
+//@harness h_senumend_{X} for X in direction_word32,direction_minstd,direction_word64,level16_word32,level16_minstd,tiny8_word32,far64_word64,far64_word32 param end=0..1 tier=quick loop=24
 
 // containers of size n
 H(h_container_word32, container<word32>(2)) H(h_container_minstd, container<minstd>(2)) H(h_container_word64, container<word64>(2))
